@@ -9,6 +9,7 @@ import (
 	"bytes"
 	"encoding/json"
 	"net"
+	"time"
 )
 
 // VerifRelayStatus reads the relay's status word (kRelayStandBy / kRelayHandshaking /
@@ -145,3 +146,73 @@ func VerifServerConfig(a VerifServerArgs, tmuxMode int, paneWidth int32, actLine
 
 // VerifRelayTunnelConnected reads the relay's tunnelConnected flag.
 func VerifRelayTunnelConnected(r *TrzszRelay) bool { return r.tunnelConnected.Load() }
+
+// VerifRelayHandshake2 is VerifRelayHandshake for the framing of the handshake: the caller
+// also chooses what the relay remembers from earlier transfers (clientIsWindows), and a
+// relay that keeps waiting for a line (a reader that never finds its terminator) is reported
+// as hung after `wait` instead of blocking: what it had sent until then and its status are
+// returned, then its buffers are stopped so that the goroutine ends.
+func VerifRelayHandshake2(tmuxMode int, paneWidth int32, winServer, clientIsWindows bool, fromClient, fromServer [][]byte,
+	wait time.Duration) (toServer, toClient [][]byte, status int32, clientIsWindowsAfter bool, hung bool) {
+	osStdinChan := make(chan []byte, 100)
+	osStdoutChan := make(chan []byte, 100)
+	bypassTmuxChan := osStdoutChan
+	if tmuxModeType(tmuxMode) == tmuxNormalMode {
+		bypassTmuxChan = make(chan []byte, 100)
+	}
+	r := &TrzszRelay{
+		tmuxMode:        tmuxModeType(tmuxMode),
+		osStdinChan:     osStdinChan,
+		osStdoutChan:    osStdoutChan,
+		bypassTmuxChan:  bypassTmuxChan,
+		stdinBuffer:     newTrzszBuffer(),
+		stdoutBuffer:    newTrzszBuffer(),
+		tmuxPaneWidth:   paneWidth,
+		clientIsWindows: clientIsWindows,
+		trigger:         &trzszTrigger{mode: 'R', uniqueID: "", winServer: winServer},
+	}
+	r.relayStatus.Store(kRelayHandshaking)
+	for _, b := range fromClient {
+		r.stdinBuffer.addBuffer(b)
+	}
+	for _, b := range fromServer {
+		r.stdoutBuffer.addBuffer(b)
+	}
+	done := make(chan struct{})
+	go func() {
+		defer close(done)
+		r.handshake()
+	}()
+	drain := func(ch chan []byte) [][]byte {
+		var out [][]byte
+		for {
+			select {
+			case b := <-ch:
+				out = append(out, b)
+			default:
+				return out
+			}
+		}
+	}
+	collect := func() {
+		toServer = drain(osStdinChan)
+		toClient = drain(osStdoutChan)
+		if bypassTmuxChan != osStdoutChan {
+			toClient = append(toClient, drain(bypassTmuxChan)...)
+		}
+		status = r.relayStatus.Load()
+	}
+	select {
+	case <-done:
+		collect()
+		clientIsWindowsAfter = r.clientIsWindows
+	case <-time.After(wait):
+		hung = true
+		collect()
+		r.stdinBuffer.stopBuffer()
+		r.stdoutBuffer.stopBuffer()
+		<-done
+		clientIsWindowsAfter = r.clientIsWindows
+	}
+	return
+}
